@@ -700,7 +700,16 @@ class Gen:
             p4["time"], p4["rel_now"] = None, r.choice([30.0, 86400.0])
             p2["time"] = p3["time"] = p5["time"] = None
             ops += [("insert", [self.point()], None), ("insert", [p1], None), ("index_valid",), ("insert", [p2], None), ("index_valid",), ("iter",),
-                    ("insert", [p3], r.choice([None, "m1"])), ("insert", [p4], None), ("insert", [p5], None), ("get_timestamps", None)]
+                    ("insert", [p3], r.choice([None, "m1"])), ("all", True), ("search", ("S", "time", [], ("cmp", ">", ("t", T0))), None, True), ("index_valid",),
+                    ("insert", [p4], None), ("insert", [p5], None), ("get_timestamps", None), ("all", True), ("select", ["time"], ("noop", "tags"), None)]
+            # time comparisons with bounds between "now" and the forecasts (the wall clock of the moment the history is generated: the replay file
+            # holds the concrete values)
+            import time as _time
+            g_now = int(_time.time() * 1000000)
+            tq = lambda c, x: ("S", "time", [], ("cmp", c, ("t", x)))
+            for off in (12 * 3600 * SEC, 20 * SEC, 2 * 86400 * SEC):
+                ops += [("count", tq("<", g_now + off), None), ("count", tq(">=", g_now + off), None)]
+            ops += [("search", tq("<=", g_now + 3600 * SEC), None, False), ("remove", tq(">", g_now + 3600 * SEC), None), ("len",)]
         elif k == "range_ends":
             # points in the first hours of year 1 and in the last hours of year 9999 (valid instants at the ends of the datetime range; the
             # process may be in any zone), then points in between, in time order: getters, time tests and the validity of the index
